@@ -21,8 +21,12 @@ theorem shapeAll_pinned : shapeAll = ["for i := range s { if !f(s[i]) { return f
 theorem shapeChunk_pinned : shapeChunk = ["if chunkSize <= 0 {",
   "panic(\"xslices.Chunk: chunkSize must be positive\")",
   "}",
-  "out := make([][]T, (len(s)+chunkSize-1)/chunkSize)",
-  "for i := range out { start := i * chunkSize end := (i + 1) * chunkSize if end > len(s) { end = len(s) } out[i] = s[start:end] }",
+  "n := 0",
+  "if len(s) > 0 {",
+  "n = (len(s)-1)/chunkSize + 1",
+  "}",
+  "out := make([][]T, n)",
+  "for i := range out { start := i * chunkSize end := len(s) if len(s)-start > chunkSize { end = start + chunkSize } out[i] = s[start:end] }",
   "return out"] := rfl
 
 theorem shapeCountFunc_pinned : shapeCountFunc = ["n := 0",
@@ -129,7 +133,7 @@ theorem shapeRuns_pinned : shapeRuns = ["var runs [][]T",
   "}",
   "return runs"] := rfl
 
-theorem shapeShrink_pinned : shapeShrink = ["if cap(s) > len(s)+n {",
+theorem shapeShrink_pinned : shapeShrink = ["if cap(s)-len(s) > n {",
   "x2 := make([]T, len(s)+n)",
   "copy(x2, s)",
   "return x2[:len(s)]",
